@@ -57,17 +57,32 @@ func goTest(dir string) (failed map[string]string, all string) {
 	if strings.Contains(all, "toolchain not available") || strings.Contains(all, "cannot find GOROOT") || strings.Contains(all, "go: cannot find main module") {
 		panic("harness: go test could not run: " + all)
 	}
-	// split the output into per-package sections: a section ends with a FAIL/ok line for the package
+	// compiler errors come in "# <pkg> [<pkg>.test]" sections, test failures end in a "FAIL <pkg>" line
+	build := map[string]string{}
 	var cur strings.Builder
+	curBuild := ""
 	for _, line := range strings.SplitAfter(all, "\n") {
-		cur.WriteString(line)
+		if strings.HasPrefix(line, "# ") {
+			fs := strings.Fields(line)
+			if len(fs) >= 2 {
+				curBuild = fs[1]
+			}
+			continue
+		}
 		if m := failLine.FindStringSubmatch(line); m != nil {
 			if m[1] == "FAIL" {
-				pkg := strings.TrimSuffix(m[2], "\t")
-				failed[pkg] += cur.String()
+				pkg := m[2]
+				failed[pkg] += build[pkg] + cur.String() + line
 			}
 			cur.Reset()
+			curBuild = ""
+			continue
 		}
+		if curBuild != "" {
+			build[curBuild] += line
+			continue
+		}
+		cur.WriteString(line)
 	}
 	if len(failed) == 0 {
 		failed["?"] = all
